@@ -879,4 +879,20 @@ theorem iterNext_all {h : Nat → Nat} {data : Array Slot} (inv : DInv h data) :
         exact ⟨x, Nat.zero_le x, by have := key_some_lt hx; omega, hx⟩
       · exact absurd (rawgetD_miss (fun x hx => hex ⟨x, hx⟩)) hne
 
+/-! ### capacity chosen by a rehash -/
+
+theorem smear_ge_aux (l : List Nat) (n : Nat) : n ≤ l.foldl (fun n s => n ||| (n >>> s)) n := by
+  induction l generalizing n with
+  | nil => exact Nat.le_refl n
+  | cons s rest ih =>
+    simp only [List.foldl_cons]
+    exact Nat.le_trans Nat.left_le_or (ih _)
+
+/-- `janet_tablen(n) > n` (whatever the smearing steps are) -/
+theorem tablen_gt (n : Nat) : n < tablen n := by
+  unfold tablen smear
+  have := smear_ge_aux tablenShifts n
+  simp only []
+  omega
+
 end JanetModel.Table
